@@ -159,6 +159,9 @@ class SimT1(object):
         self.target = nfc.clf.RemoteTarget("106A", sens_res=bytearray(b"\x00\x0C"),
                                            rid_res=bytearray(self.hr) + bytearray(self.uid))
 
+    def ndef_now(self):
+        return None        # TLV walk with reserved bytes: not re-implemented here (C01)
+
     @staticmethod
     def token(d):
         c = d[0]
@@ -234,6 +237,16 @@ class SimT2(object):
         self.applied = []
         self.target = nfc.clf.RemoteTarget("106A", sens_res=bytearray(b"\x44\x00"), sel_res=bytearray(b"\x00"),
                                            sdd_res=bytearray([uid0, 2, 3, 4, 5, 6, 7]))
+
+    def ndef_now(self):
+        """the NDEF message in the memory (layout of t2_memory: NDEF TLV at octet 16)"""
+        m = self.mem
+        if m[16] != 3:
+            return None
+        if m[17] == 255:
+            ln = m[18] << 8 | m[19]
+            return bytes(m[20:20 + ln])
+        return bytes(m[18:18 + m[17]])
 
     def token(self, d):
         c = d[0]
@@ -324,6 +337,11 @@ class SimT3(object):
         a[11:14] = struct.pack(">I", ln)[1:]
         a[14:16] = struct.pack(">H", sum(a[:14]))
         self.blocks[0] = a
+
+    def ndef_now(self):
+        a = self.blocks[0]
+        ln = a[11] << 16 | a[12] << 8 | a[13]
+        return b"".join(bytes(self.blocks[i]) for i in range(1, 2 + (ln + 15) // 16) if i in self.blocks)[:ln]
 
     @staticmethod
     def blocklist(cmd):
@@ -513,6 +531,10 @@ class SimT4(object):
             # SENSB_RES: 50h, PUPI, application data, protocol info (FSCI 8 / FWI fwi)
             self.target = nfc.clf.RemoteTarget("106B", sensb_res=bytearray(
                 b"\x50\x01\x02\x03\x04" + bytes(4) + bytes([0x00, 0x81, fwi << 4])))
+
+    def ndef_now(self):
+        ln = self.file[0] << 8 | self.file[1]
+        return bytes(self.file[2:2 + ln])
 
     @staticmethod
     def token(d):
